@@ -19,7 +19,8 @@ LEVEL_TEXT = ("Machine-checked Coq theorems (no size bound): the three code gene
               "from_le_bytes of a byte array, static word arrays for 16/32/64-bit words with their LEN and the padding) build "
               "exactly the parsed magnitude and satisfy from_static_words' assertions; the float and ratio generators preserve "
               "(sign, significand, exponent, precision) / (numerator, denominator) outside two listed precision classes; the token "
-              "loops of parse_integer/parse_ratio accept every literal of the grammar with the reading the grammar gives it. "
+              "loops of parse_integer/parse_ratio (as repaired) accept exactly the literal grammar and read every literal as the "
+              "grammar does, fbig!'s own sign handling likewise. "
               "Tie to the code: the macro front ends of the working tree are compiled into the harness and run on generated "
               "literals; a generated crate of real macro invocations is compiled with rustc and run. PARTIAL: rustc's lexer, "
               "const evaluation, hygiene and the compile errors themselves are observed, not modelled.")
